@@ -18,7 +18,7 @@ import time
 
 VERIF = os.path.dirname(os.path.dirname(os.path.abspath(__file__)))
 REPO = os.environ.get("PV_REPO", "/repo")
-CACHE = os.path.join(VERIF, ".cache")
+CACHE = os.environ.get("PV_CACHE") or os.path.join(VERIF, ".cache")
 DRIVER_DIR = os.path.join(VERIF, "engine", "pvfacts")
 DRIVER = os.path.join(DRIVER_DIR, "target", "release", "pvfacts")
 TMPL_DIR = os.path.join(VERIF, "engine", "pvtmpl")
